@@ -23,6 +23,8 @@ use crate::{
 };
 
 const ALPHABET: &[&str] = &["A", ":", "&", "|", "(", ")", " ", "*", "é", "日", "😀"];
+/// Characters whose code point ends in the byte of a metacharacter (0x26 & 0x28 ( 0x29 ) 0x7C | 0x3A : 0x20 0x2A *).
+const LOOKALIKE: &[&str] = &["ż", "Ц", "Ш", "Щ", "Ħ", "…", "ĺ", "Ġ", "Ī", "℺"];
 
 fn terms(p: &AccessPolicy, out: &mut BTreeSet<(String, String)>) {
     match p {
@@ -139,7 +141,7 @@ fn enumerate(len: usize, shard: usize, shards: usize, st: &mut Stats) {
     }
 }
 
-const NAME_POOL: &[&str] = &["A", "B", "Low Sec", "é", "日本", "T op", "x", "Dép t", "😀", "N1", "a-b", "ß"];
+const NAME_POOL: &[&str] = &["A", "B", "Low Sec", "é", "日本", "T op", "x", "Dép t", "😀", "N1", "a-b", "ß", "Duży", "Цех", "Ħal…", "aШb", "Щ"];
 const NAME_POOL_ASCII: &[&str] = &["A", "B", "Low Sec", "e", "JP", "T op", "x", "Dep t", "S", "N1", "a-b", "ss"];
 
 fn random_formula(rng: &mut Rng, budget: &mut usize, depth: usize, pool: &[&str], n_names: usize) -> Pol {
@@ -180,10 +182,39 @@ fn faithful_case(rng: &mut Rng, st: &mut Stats, ascii: bool) {
     let pool = if ascii { NAME_POOL_ASCII } else { NAME_POOL };
     let mut budget = rng.range(1, 8);
     let n_names = rng.range(2, 5);
-    let f = random_formula(rng, &mut budget, 0, pool, n_names);
+    // a few names drawn from the whole pool
+    let mut sub: Vec<&str> = pool.to_vec();
+    rng.shuffle(&mut sub);
+    sub.truncate(n_names);
+    let f = random_formula(rng, &mut budget, 0, &sub, n_names);
     let text = f.print(rng);
-    st.bump("formulas");
     let class = if ascii { "ascii" } else { "multibyte" };
+    check_formula(&f, &text, st, class);
+}
+
+/// Every character U+hhll (a few pages hh, every ll) as part of dimension and attribute names: a
+/// name character must never be taken for a metacharacter, whatever its encoding looks like.
+fn character_sweep(st: &mut Stats) {
+    for hi in [0x00u32, 0x01, 0x04, 0x20, 0x21, 0x30, 0x65, 0xFF, 0x1F6] {
+        for lo in 0..=255u32 {
+            let Some(c) = char::from_u32((hi << 8) | lo) else { continue };
+            if c.is_whitespace() || c.is_control() || "()|&:*".contains(c) {
+                continue;
+            }
+            let d = format!("D{c}");
+            let a = format!("a{c}b");
+            let f = Pol::And(vec![Pol::attr(&d, &a), Pol::Or(vec![Pol::attr("E", "x"), Pol::attr(&format!("{c}F"), &format!("{c}"))])]);
+            let text = format!("{d}::{a} && (E::x || {c}F::{c})");
+            check_formula(&f, &text, st, "character-sweep");
+            st.bump("characters_swept");
+        }
+    }
+}
+
+fn check_formula(f: &Pol, text: &str, st: &mut Stats, class: &str) {
+    let f = f.clone();
+    let text = text.to_string();
+    st.bump("formulas");
     let replay = json!({"monitor": "c15", "kind": "formula", "text": text, "formula": format!("{f:?}")});
     let parsed = match real::parse(&text) {
         Out::Ok(p) => p,
@@ -391,6 +422,24 @@ pub fn run(tier: &str, seed: u64, threads: usize, replay: Option<serde_json::Val
             }
             if t == 0 {
                 long_chains(&mut st, &mut rng);
+            }
+            if t == 1 % threads {
+                character_sweep(&mut st);
+            }
+            // random strings also draw from the look-alike characters
+            for _ in 0..(n_random / threads) / 4 {
+                let l = rng.range(4, 24);
+                let mut s = String::new();
+                for _ in 0..l {
+                    match rng.below(8) {
+                        0 => s.push_str("::"),
+                        1 => s.push_str("&&"),
+                        2 => s.push_str("||"),
+                        3 => s.push_str(ALPHABET[rng.below(ALPHABET.len())]),
+                        _ => s.push_str(LOOKALIKE[rng.below(LOOKALIKE.len())]),
+                    }
+                }
+                check_string(&s, &mut st, "random-lookalike");
             }
             // findings can be numerous on a broken tree: keep the first of each signature
             let mut seen = BTreeSet::new();
